@@ -36,7 +36,7 @@ PROPS = {
     "C11": {
         "suites": [{"name": "disp", "stateful": True, "quick": 120, "thorough": 1500, "thorough_seeds": 3},
                    {"name": "store", "stateful": True, "seq_marker": "open", "quick": 1500, "thorough": 40000, "thorough_seeds": 2}],
-        "rule": "disp: for sizes 1..12,15..17,…,1023..1025,2000,0,-5 and random 1..300: sequences of 3*S+40 lookups/purges over a "
+        "rule": "store: see C06 (the key handed to a store is the shard's map key: a store must not write into it). " + "disp: for sizes 1..12,15..17,…,1023..1025,2000,0,-5 and random 1..300: sequences of 3*S+40 lookups/purges over a "
                 "key population of 1.5*S (40% on a hot quarter), judged op by op against the LRU model (entry identity = first-seen "
                 "index), resident count (recency list and table of every shard) read by reflection at the end; the two caches of a sequence are "
                 "built through cache.ResetDispatchers (empty configuration first), 35% of the new entries start a fetch, 1% of the ops are a "
@@ -65,7 +65,7 @@ PROPS["C09"] = {
     "suites": [{"name": "codec", "quick": 4000, "thorough": 60000, "thorough_seeds": 3},
                {"name": "codecs", "quick": 500, "thorough": 10000, "thorough_seeds": 2},
                {"name": "store", "stateful": True, "seq_marker": "open", "quick": 1500, "thorough": 40000, "thorough_seeds": 2}],
-    "rule": _STORE_RULE + " codec: reachable entries built through the public API (Get/Cacheable/HitForPass with a recording store): hit, empty "
+    "rule": 'codecs: what serving a restored entry runs its stored gzip/br variants through — multi-member and damaged streams, see C12. ' + _STORE_RULE + " codec: reachable entries built through the public API (Get/Cacheable/HitForPass with a recording store): hit, empty "
             "hit-for-pass, hit-for-pass keeping an old response; header sets incl. multi-valued, empty, nil, non-ASCII, quoting; bodies "
             "empty/1 byte/repetitive/random up to 600 B in any subset of raw/gzip/br; min-length up to 2^31, ttl up to 2^62; a separate "
             "obs-text stream (invalid UTF-8 header values). Every record is decoded by the real FromBytes under recover/watchdog/"
@@ -131,7 +131,7 @@ PROPS["C02"] = {
                {"name": "proxy", "stateful": True, "seq_marker": "case", "quick": 30, "thorough": 300, "thorough_seeds": 1},
                {"name": "fault", "quick": 120, "thorough": 3000, "thorough_seeds": 2}],
     "trip_re": "blocked|upstream_hang_not_ended",
-    "rule": _SCHED_RULE + " A goroutine that does not reach its next stop within 5 s, or is not finished when the schedule has been wound down, trips 'blocked'.",
+    "rule": "fault: an origin whose body is not what its Content-Encoding says (junk or a stream cut in the middle, for gzip/br/lz4/zst/snz): three requests for the URL, each ends within the client's time-out (`blocked` otherwise). " + _SCHED_RULE + " A goroutine that does not reach its next stop within 5 s, or is not finished when the schedule has been wound down, trips 'blocked'.",
     "assumptions": ["every upstream request ends (the property conditions on it; the proxy timeout converts a silent upstream into 504)",
                     "store calls made under a mutex return",
                     "proxy: one directed history with an upstream that never answers (proxy timeout 300 ms) and a second request coalesced behind the first"],
@@ -142,7 +142,7 @@ PROPS["C04"] = {
                {"name": "fresh", "quick": 8000, "thorough": 100000, "thorough_seeds": 2},
                {"name": "proxy", "stateful": True, "seq_marker": "case", "quick": 300, "thorough": 3000, "thorough_seeds": 2}],
     "trip_re": "served_stale|age_gt_T.*|lifetime_gt_declared",
-    "rule": _SCHED_RULE, "assumptions": ["'obtained' = the instant the entry became a hit (createdAt)", "the store never returns data that was not written to it (Honest) for the provenance theorem"],
+    "rule": 'proxy (real transport): an origin that states an Age equal to or beyond its max-age leaves nothing to store. ' + _SCHED_RULE, "assumptions": ["'obtained' = the instant the entry became a hit (createdAt)", "the store never returns data that was not written to it (Honest) for the provenance theorem"],
     "trusted_base": _SYS_TRUSTED,
 }
 PROPS["C07"] = {
@@ -203,7 +203,7 @@ PROPS["C12"] = {
 PROPS["C17"] = {
     "suites": [{"name": "config", "quick": 3000, "thorough": 60000, "thorough_seeds": 3}],
     "trip_re": "accepted_dangling|accepted_unresolvable.*|accepted_malformed.*|roundtrip_differs.*|differs_from_fresh:watch.*",
-    "rule": "config: configurations with 1-2 compress profiles and caches, 1-3 upstreams and locations, 1-2 servers, 30% of the names from a "
+    "rule": "config field probes: three per case — one field (name, policy, upstream address, prefix, rewrite pair) of an otherwise valid minimal configuration takes a value from a pool of well-formed values and near misses (other letter case, fragments, lists, missing or foreign schemes, 19/20/21 runes in one- and three-byte characters); Validate's verdict is compared with the Lean field rule (Model/Fields.lean). " + "config: configurations with 1-2 compress profiles and caches, 1-3 upstreams and locations, 1-2 servers, 30% of the names from a "
             "list needing YAML quoting (yes, null, 123, 'a: b', ~, true, 0x1f, -, #x, [a], {b}, quotes, leading/trailing blank, tab, 1e3, off, "
             "non-ASCII), optional fields set or unset; then exactly one of 18 defects (4 dangling references, 14 malformed fields) or none. "
             "Observed: Validate's verdict class; for accepted ones, applied to the real registries, one probe request per server on two "
@@ -274,7 +274,7 @@ PROPS["C15"] = {
     "suites": [{"name": "proxy", "stateful": True, "seq_marker": "case", "quick": 1200, "thorough": 6000, "thorough_seeds": 3},
                {"name": "fault", "quick": 90, "thorough": 3000, "thorough_seeds": 2}],
     "trip_re": "upstream_saw_diff.*|conditional_leaked|partial_replayed|no_304|response_header_missing|status_or_header_changed|upstream_not_contacted",
-    "rule": "proxy: location configuration (rewrites none / '/api/*:/$1' / '/old:/new' / two chained rules; 0-2 added request headers incl. one "
+    "rule": 'fault: through a REAL listening server (server.Start): revalidation by ETag, by Last-Modified alone and by both, on a cold key and on the hit. ' + "proxy: location configuration (rewrites none / '/api/*:/$1' / '/old:/new' / two chained rules; 0-2 added request headers incl. one "
             "colliding with a client header; 0-2 added response headers incl. one colliding with an upstream header; 0-2 added query "
             "parameters) x upstream Accept-Encoding unset/gzip/br x cacheable or not; a first request (GET/HEAD/POST/PUT/DELETE, body for "
             "POST/PUT, 5 paths incl. an escaped blank, 7 raw queries incl. bare flags, duplicates, empty values, a key that the location "
